@@ -40,9 +40,19 @@ pub assume_specification [char::to_ascii_lowercase] (c: &char) -> (r: char) ensu
 
 // ---- string wrappers (R3): body IS the original call; only the contract is assumed ----
 #[verifier::external_body]
-pub fn x_make_ascii_lowercase(s: &mut String)
+pub fn x_make_ascii_lowercase(s: &mut str)
     ensures final(s)@ == lower_ascii_seq(old(s)@)
 { s.make_ascii_lowercase() }
+
+// `&mut String -> &mut str` deref coercion: same text, writes go through.
+pub assume_specification [ <String as core::ops::DerefMut>::deref_mut ] (s: &mut String) -> (r: &mut str)
+    ensures r@ == old(s)@, final(r)@ == final(s)@;
+
+/// `<[char]>::contains`
+#[verifier::external_body]
+pub fn x_slice_contains(s: &[char], c: &char) -> (r: bool)
+    ensures r == s@.contains(*c)
+{ s.contains(c) }
 
 #[verifier::external_body]
 pub fn x_to_ascii_lowercase(s: &str) -> (r: String)
